@@ -28,7 +28,8 @@ Definition origins (items : list item) (n : node) : list err :=
       | BItem u => [u]
       | BRerun => [Leaf id_rerun]
       | BConvPanic i => [PanicErr i]
-      | BOk | BCancel => []
+      | BPostFail u => [u]
+      | BOk | BCancel | BPreFail _ => []
       end
   | NTools _ ts => Leaf id_misc :: flat_map tool_origins ts
   | NSub _ _ => []
@@ -153,11 +154,40 @@ Proof.
       inversion Hex; subst es. apply In_map_consume in Hin. from_items Hin.
 Qed.
 
+(* what a lambda whose body succeeds hands on: nothing, or (a lazy transformer) its input's items *)
+Lemma post_fail_output : forall stream items f u its c,
+  exec_lambda stream items f (BPostFail u) = NOk its c -> its = [] \/ its = items.
+Proof.
+  intros stream items f u its c H. unfold exec_lambda in H.
+  destruct stream, f; cbn in H; try (destruct items; cbn in H; try discriminate);
+    inversion H; subst; auto.
+Qed.
+
+Lemma with_post_origin : forall stream items k f b es r,
+  with_post stream b (exec_lambda stream items f b) = NErr es -> In r es -> from_origin items (NLam k f b) r.
+Proof.
+  intros stream items k f b es r Hex Hin.
+  destruct b; cbn [with_post] in Hex; try (eapply lambda_origin; eauto; fail).
+  destruct (exec_lambda stream items f (BPostFail e)) as [its c|es0|] eqn:Ex.
+  - destruct its as [|[e0|i] its'].
+    + inversion Hex; subst es. destruct Hin as [<-|[]]. unfold from_origin, origins.
+      destruct stream.
+      * exists [WWrapf; WStream TransformByInvoke], e. repeat split. apply in_or_app. right. left. reflexivity.
+      * exists [WWrapf], e. repeat split. apply in_or_app. right. left. reflexivity.
+    + inversion Hex; subst es. destruct Hin as [<-|[]].
+      destruct (post_fail_output _ _ _ _ _ _ Ex) as [H|H]; [discriminate|].
+      exists [WWrapf; WConcat TransformByInvoke], e0. repeat split.
+      unfold origins. apply in_or_app. left. rewrite <- H. left. reflexivity.
+    + discriminate.
+  - inversion Hex; subst es0. eapply lambda_origin; eauto.
+  - discriminate.
+Qed.
+
 Lemma leaf_origin_lemma : forall stream items n es r,
   is_leaf n = true -> exec_leaf stream items n = NErr es -> In r es -> from_origin items n r.
 Proof.
   intros stream items n es r Hl Hex Hin. destruct n as [k f b|k gi|k ts]; [|discriminate|].
-  - eapply lambda_origin; eauto.
+  - eapply with_post_origin; eauto.
   - eapply tools_origin; eauto.
 Qed.
 
